@@ -4,7 +4,7 @@ import MpVerif.C05.LemmasAll
 
 `writeSol c s` (C05/Model.lean) mirrors `mp::WriteSolFile` (include/mp/sol.h, src/sol.cc);
 `readSol` (C14/Model.lean) mirrors `mp::SOLReader2::ReadSOLFile`, `fx = false` the code as it is,
-`fx = true` the code with repo_patches/C14-sol-reader-bounds.diff.  Reals go through the abstract codec
+`fx = true` the code as it is since ampl/mp 602adf1 (`fx = false`: before), `fm` = with/without repo_patches/C14-badoptions-message.diff.  Reals go through the abstract codec
 `c : Codec D` (`enc` = fmt's `'{:.16}'`); integers are printed by the concrete `encInt`.
 
 `C05_roundtrip` is the full-strength statement: for **every** solution (message, options, vectors of any
@@ -32,14 +32,14 @@ open MpVerif.C14
 set_option maxRecDepth 100000
 
 /-- **A written .sol file is read back as the same solution** (model level, all solutions meeting `Wf`). -/
-theorem C05_roundtrip {D : Type} (fx : Bool) (c : Codec D) (s : Sol D) (nVars nCons : Nat) (w : Wf c s nVars nCons) :
-    readSol fx nVars nCons readAll (writeSol c s) = ⟨.ok, observable c s, false⟩ :=
-  roundtrip fx c s nVars nCons w
+theorem C05_roundtrip {D : Type} (fx fm : Bool) (c : Codec D) (s : Sol D) (nVars nCons : Nat) (w : Wf c s nVars nCons) :
+    readSol fx fm nVars nCons readAll (writeSol c s) = ⟨.ok, observable c s, false⟩ :=
+  roundtrip fx fm c s nVars nCons w
 
 /-- the handler receives exactly the written vectors, the written objno/status texts, and no error -/
-theorem C05_roundtrip_code {D : Type} (fx : Bool) (c : Codec D) (s : Sol D) (nVars nCons : Nat) (w : Wf c s nVars nCons) :
-    (readSol fx nVars nCons readAll (writeSol c s)).code = .ok := by
-  rw [C05_roundtrip fx c s nVars nCons w]
+theorem C05_roundtrip_code {D : Type} (fx fm : Bool) (c : Codec D) (s : Sol D) (nVars nCons : Nat) (w : Wf c s nVars nCons) :
+    (readSol fx fm nVars nCons readAll (writeSol c s)).code = .ok := by
+  rw [C05_roundtrip fx fm c s nVars nCons w]
 
 /-- **Message block** on its own: line by line, interior empty lines as the reserved single space, no
 backspaces counted, the reader stops exactly behind the terminating empty line. -/
@@ -108,7 +108,7 @@ def sol1 : Sol Tok :=
     ⟨21, str "dual2", [], [], [zero, tk "1e+100"]⟩]⟩
 
 theorem C05_roundtrip_instance :
-    readSol false 3 2 readAll (writeSol tokCodec sol1) =
+    readSol true false 3 2 readAll (writeSol tokCodec sol1) =
       ⟨.ok, [.msg (str "hi\n \nthere\n") 0,
              .options [3, 1, 0, 7, 2, 1, 3, 2] false [],
              .dual false ⟨1, [⟨0, str "0.5"⟩], .ok, 0⟩,
@@ -118,15 +118,15 @@ theorem C05_roundtrip_instance :
              .suffix false 5 6 0 (str "dual2") [] ⟨1, [⟨1, str " 1e+100"⟩], .ok, 0⟩], false⟩ := by
   decide
 
-/-- the same file read by the patched reader (repo_patches/C14-sol-reader-bounds.diff) -/
-theorem C05_roundtrip_instance_fixed :
-    readSol true 3 2 readAll (writeSol tokCodec sol1) = readSol false 3 2 readAll (writeSol tokCodec sol1) := by
+/-- the same file read by the reader before 602adf1 gives the same result -/
+theorem C05_roundtrip_instance_before_fix :
+    readSol false false 3 2 readAll (writeSol tokCodec sol1) = readSol true false 3 2 readAll (writeSol tokCodec sol1) := by
   decide
 
 /-- empty message, no vectors, 9 options -/
 def sol2 : Sol Tok := ⟨[], [1, 1, 1, 1, 1, 1, 1, 1, 1], 0, 0, [], [], 1, 0, []⟩
 theorem C05_roundtrip_instance_empty :
-    readSol false 0 0 readAll (writeSol tokCodec sol2) =
+    readSol true false 0 0 readAll (writeSol tokCodec sol2) =
       ⟨.ok, [.options [9, 1, 1, 1, 1, 1, 1, 1, 1, 1, 0, 0, 0, 0] false [], .objno false (str "0") (str " 0")], false⟩ := by
   decide
 
@@ -135,32 +135,32 @@ lines as options: `ncons = 5` is read as "5 options" (the dual vector is lost, a
 delivered), any `ncons` outside 3..9 makes the file unreadable (Bad_Format). -/
 def solNoOpt (ncons : Nat) (duals : List Tok) : Sol Tok := ⟨str "m", [], ncons, 1, duals, [tk "1"], 1, 0, []⟩
 theorem C05_counterexample_zero_options :
-    (readSol false 1 5 readAll (writeSol tokCodec (solNoOpt 5 []))).code = .badLine ∧
-    (readSol false 1 0 readAll (writeSol tokCodec (solNoOpt 0 []))).code = .badFormat ∧
-    (readSol false 1 5 readAll (writeSol tokCodec (solNoOpt 3 [tk "1", tk "2", tk "3"]))).evs.take 2 =
+    (readSol true false 1 5 readAll (writeSol tokCodec (solNoOpt 5 []))).code = .badLine ∧
+    (readSol true false 1 0 readAll (writeSol tokCodec (solNoOpt 0 []))).code = .badFormat ∧
+    (readSol true false 1 5 readAll (writeSol tokCodec (solNoOpt 3 [tk "1", tk "2", tk "3"]))).evs.take 2 =
       [.msg (str "m\n") 0, .options [3, 3, 1, 1, 1, 2, 3, 1] false []] := by decide
 
 /-- one or two options: the reader insists on 3..9 -/
 theorem C05_counterexample_two_options :
-    (readSol false 1 0 readAll (writeSol tokCodec ⟨str "m", [1, 1], 0, 1, [], [tk "1"], 1, 0, []⟩)).code = .badFormat := by decide
+    (readSol true false 1 0 readAll (writeSol tokCodec ⟨str "m", [1, 1], 0, 1, [], [tk "1"], 1, 0, []⟩)).code = .badFormat := by decide
 
 /-- **A9**: second option equal to 3 selects the vbtol form in the reader; the writer never writes it -/
 theorem C05_counterexample_vbtol_flag :
-    (readSol false 1 0 readAll (writeSol tokCodec ⟨str "m", [1, 3, 1, 1], 0, 1, [], [tk "1"], 1, 0, []⟩)).code ≠ .ok := by decide
+    (readSol true false 1 0 readAll (writeSol tokCodec ⟨str "m", [1, 3, 1, 1], 0, 1, [], [tk "1"], 1, 0, []⟩)).code ≠ .ok := by decide
 
 /-- a message line consisting of a single CR is taken for the terminating empty line -/
 theorem C05_counterexample_cr_line :
-    (readSol false 0 0 readAll (writeSol tokCodec ⟨str "a\n\r\nb", [1, 1, 1], 0, 0, [], [], 1, 0, []⟩)).code ≠ .ok := by decide
+    (readSol true false 0 0 readAll (writeSol tokCodec ⟨str "a\n\r\nb", [1, 1, 1], 0, 0, [], [], 1, 0, []⟩)).code ≠ .ok := by decide
 
 /-- a message line of exactly 511 characters: the second `fgets` chunk is a lone `\n`, which the reader
 takes for the terminator: the line comes back without its newline (and any following lines are lost) -/
 theorem C05_counterexample_line_511 :
-    (readSol false 0 0 readAll (writeSol tokCodec ⟨List.replicate 511 120, [1, 1, 1], 0, 0, [], [], 1, 0, []⟩)).evs.head? =
+    (readSol true false 0 0 readAll (writeSol tokCodec ⟨List.replicate 511 120, [1, 1, 1], 0, 0, [], [], 1, 0, []⟩)).evs.head? =
       some (.msg (List.replicate 511 120) 0) := by decide
 
 /-- backspaces at the start of a later line are stripped and counted as "initial" backspaces -/
 theorem C05_counterexample_late_backspace :
-    (readSol false 0 0 readAll (writeSol tokCodec ⟨str "ab\n\x08\x08cd", [1, 1, 1], 0, 0, [], [], 1, 0, []⟩)).evs.head? =
+    (readSol true false 0 0 readAll (writeSol tokCodec ⟨str "ab\n\x08\x08cd", [1, 1, 1], 0, 0, [], [], 1, 0, []⟩)).evs.head? =
       some (.msg (str "ab\ncd\n") 2) := by decide
 
 /-- every byte string is a table in the sense of `SufOK`: lines without LF joined by LF, then a last line
